@@ -167,16 +167,40 @@ func runSHVisit(c *load.Ctx, r *report.RuleResult) {
 		return
 	}
 	pos := c.Pos(checkNode.Pos())
-	asserted := map[string]bool{}
-	for _, b := range checkNode.Blocks {
-		for _, ins := range b.Instrs {
-			if ta, ok := ins.(*ssa.TypeAssert); ok {
-				t := ta.AssertedType
-				if p, ok := t.(*types.Pointer); ok {
-					t = p.Elem()
+	// checkNode and the helpers of its package it calls (two levels): the kinds may be told apart, and the
+	// children walked, in a helper
+	var scope []*ssa.Function
+	seenFn := map[*ssa.Function]bool{}
+	var addFn func(f *ssa.Function, depth int)
+	addFn = func(f *ssa.Function, depth int) {
+		if f == nil || seenFn[f] || f.Blocks == nil || depth > 2 {
+			return
+		}
+		seenFn[f] = true
+		scope = append(scope, f)
+		for _, b := range f.Blocks {
+			for _, ins := range b.Instrs {
+				if call, ok := ins.(ssa.CallInstruction); ok {
+					if sc := call.Common().StaticCallee(); sc != nil && load.FuncPkgRel(sc) == pkgChecker {
+						addFn(sc, depth+1)
+					}
 				}
-				if n, ok := t.(*types.Named); ok {
-					asserted[n.Obj().Name()] = true
+			}
+		}
+	}
+	addFn(checkNode, 0)
+	asserted := map[string]bool{}
+	for _, f := range scope {
+		for _, b := range f.Blocks {
+			for _, ins := range b.Instrs {
+				if ta, ok := ins.(*ssa.TypeAssert); ok {
+					t := ta.AssertedType
+					if p, ok := t.(*types.Pointer); ok {
+						t = p.Elem()
+					}
+					if n, ok := t.(*types.Named); ok {
+						asserted[n.Obj().Name()] = true
+					}
 				}
 			}
 		}
@@ -191,10 +215,12 @@ func runSHVisit(c *load.Ctx, r *report.RuleResult) {
 	}
 	// recursion over children
 	rec := false
-	for _, site := range callSites(checkNode, checkNode) {
-		// the argument comes from an element of a Children() result
-		if len(site.Call.Args) >= 2 && fromChildren(site.Call.Args[1], 0) {
-			rec = true
+	for _, f := range scope {
+		for _, site := range callSites(f, checkNode) {
+			// the argument comes from an element of a Children() result
+			if len(site.Call.Args) >= 2 && fromChildren(site.Call.Args[1], 0) {
+				rec = true
+			}
 		}
 	}
 	if rec {
